@@ -2,6 +2,7 @@
 import importlib
 import struct
 import tlvschema as T
+import pktcommon as PK
 
 PROP = 'C08'
 TITLE = 'TLV models encode to exact, minimal TLV and decode back to equal values'
@@ -153,8 +154,8 @@ def cases(rng, tier):
     for _ in range(n_gen):
         fs = T.random_schema(rng)
         vals = [T.random_value(rng, s, big=(tier == 'thorough' and rng.random() < 0.02)) for s in fs]
-        yield {'kind': 'gen', 'schema': [T.strip_classes(s) for s in fs], 'values': [T.jval(v) for v in vals],
-               'mut': _mutation(rng, fs, vals)}
+        yield _spelled(rng, {'kind': 'gen', 'schema': [T.strip_classes(s) for s in fs], 'values': [T.jval(v) for v in vals],
+                             'mut': _mutation(rng, fs, vals)})
     for _ in range(200 if tier == 'quick' else 3000):
         yield _inherit_case(rng)
     for path in _inheriting_shipped():
@@ -164,15 +165,37 @@ def cases(rng, tier):
     for _ in range(800 if tier == 'quick' else 6000):
         fs = _shape_schema(rng)
         vals = [T.random_value(rng, s, present=0.9) for s in fs]
-        yield {'kind': 'gen', 'schema': [T.strip_classes(s) for s in fs], 'values': [T.jval(v) for v in vals],
-               'mut': _mutation(rng, fs, vals), 'shape': 1}
+        yield _spelled(rng, {'kind': 'gen', 'schema': [T.strip_classes(s) for s in fs], 'values': [T.jval(v) for v in vals],
+                             'mut': _mutation(rng, fs, vals), 'shape': 1})
     for _ in range(300 if tier == 'quick' else 3000):
         yield _default_case(rng)
     for _ in range(n_ship):
         path = rng.choice(SHIPPED)
         fs = T.class_schema(_cls(path))
         vals = [T.random_value(rng, s) for s in fs]
-        yield {'kind': 'shipped', 'cls': path, 'values': [T.jval(v) for v in vals], 'mut': _mutation(rng, fs, vals)}
+        yield _spelled(rng, {'kind': 'shipped', 'cls': path, 'values': [T.jval(v) for v in vals], 'mut': _mutation(rng, fs, vals)})
+
+
+def _spelled(rng, case):
+    """40% of the value cases say how the caller holds its values and the wire (`spell`): byte strings as bytearray /
+    memoryview / a memoryview into a larger buffer; names as URI string, list of URI components, encoded Name (bytes,
+    bytearray, memoryview), tuple, mixed; the model built by attribute assignment instead of through __dict__; the
+    wire handed to parse() as bytearray / memoryview / slice of a larger buffer; parse(..., ignore_critical=True)"""
+    if rng.random() >= 0.4:
+        return case
+    sp = {'seed': rng.getrandbits(16)}
+    if rng.random() < 0.5:
+        sp['bytes'] = rng.choice(PK.BUF_FORMS[1:])
+    if rng.random() < 0.4:
+        sp['name'] = rng.choice(['uri', 'strs', 'wire', 'wire_mv', 'wire_ba', 'mixed', 'tuple', 'uri_alt', 'strs_alt'])
+    if rng.random() < 0.4:
+        sp['wire'] = rng.choice(PK.BUF_FORMS[1:])
+    if rng.random() < 0.3:
+        sp['ic'] = 1
+    if rng.random() < 0.3:
+        sp['build'] = 'setattr'
+    case['spell'] = sp
+    return case
 
 
 def _shape_schema(rng):
@@ -187,7 +210,7 @@ def _shape_schema(rng):
             else ('Y', t, True) if r == 'T' else ('B', t)
     if k == 'adjacent':
         ts = rng.choice([[252, 253, 254], [251, 252, 253, 255], [65534, 65535, 65536, 65537], [252, 253, 65535, 65536],
-                         [252, 254, 65536, 2 ** 32 - 2, 2 ** 32 - 1]])
+                         [252, 254, 65536, 2 ** 32 - 2, 2 ** 32 - 1], [2 ** 32 - 2, 2 ** 32 - 1, 2 ** 32]])
         fs = [leaf(t) for t in ts]
         if rng.random() < 0.4:
             i = rng.randrange(len(fs))
@@ -562,6 +585,11 @@ def shrink(case):
                 yield dict(case, derived=d2, values={n: case['values'].get(n) for n, _ in names})
         return
     vals = case['values']
+    if case.get('spell'):
+        yield {a: b for a, b in case.items() if a != 'spell'}
+        for k in case['spell']:
+            if k != 'seed':
+                yield dict(case, spell={a: b for a, b in case['spell'].items() if a != k})
     for i, v in enumerate(vals):
         if v is not None:
             yield dict(case, values=vals[:i] + [None] + vals[i + 1:])
@@ -580,6 +608,40 @@ def shrink(case):
 
 
 # -------------------------------------------------------------------------- implementation
+def _to_py_sp(s, v, sp, ctr):
+    """T.to_py with the leaves held the way `sp` says"""
+    k = s[0]
+    if k == 'R':
+        return [_to_py_sp(s[1], x, sp, ctr) for x in (v[1] if v else [])]
+    if k == 'P':
+        return {T.to_py(s[1], a): _to_py_sp(s[2], b, sp, ctr) for a, b in (v[1] if v else [])}
+    if v is None:
+        return None
+    if k == 'Y' and not s[2]:
+        return PK.buf_in_form(v[1], sp.get('bytes'))
+    if k == 'N':
+        ctr[0] += 1
+        return PK.name_in_form(v[1], sp.get('name'), sp['seed'] + ctr[0])
+    if k == 'M':
+        return _to_instance_sp(s[4], s[3], v[1], sp, ctr)
+    return T.to_py(s, v)
+
+
+def _to_instance_sp(cls, fs, vals, sp, ctr=None):
+    ctr = [0] if ctr is None else ctr
+    inst = cls()
+    inst.__dict__.clear()
+    for f, s, v in zip(cls._encoded_fields, fs, vals):
+        if s[0] == 'K':
+            continue
+        pv = _to_py_sp(s, v, sp, ctr)
+        if sp.get('build') == 'setattr':
+            setattr(inst, f.name, pv)
+        else:
+            inst.__dict__[f.name] = pv
+    return inst
+
+
 def _setup(case):
     if case['kind'] == 'inh':
         cls = _inherit_classes(case)
@@ -776,10 +838,15 @@ def _want1(s, v):
     return _want_dict(s[4], s[3], v[1])
 
 
-def _extras(cls, fs, vals, inst, wire, names, want_dict=None):
+def _extras(cls, fs, vals, inst, wire, names, want_dict=None, skip_eq=False):
     """observations next to encode / parse: __eq__ and asdict() after a round trip, a changed copy is unequal,
-    encoding into a caller-supplied buffer at an offset"""
+    encoding into a caller-supplied buffer at an offset (bytearray, memoryview, exact size), the two-pass API with one
+    markers dict, and the SAME instance encoded again after one of its fields was changed (and changed back)"""
     ex = {}
+    _second_uses(cls, fs, vals, inst, wire, names, ex)
+    if skip_eq:
+        # (a name assigned as URI text / encoded Name does not compare equal to the decoded list of components)
+        return ex
     try:
         back = cls.parse(wire)
         ex['eq'] = bool(back == inst) and bool(inst == back)
@@ -822,6 +889,45 @@ def _extras(cls, fs, vals, inst, wire, names, want_dict=None):
     return ex
 
 
+def _second_uses(cls, fs, vals, inst, wire, names, ex):
+    try:
+        m = {}
+        n = inst.encoded_length(m)
+        w = inst.encode(markers=m)
+        ex['two_pass'] = bool(n == len(wire) and bytes(w) == wire)
+    except Exception as e:     # noqa
+        ex['two_pass'] = 'raised ' + _exc(e)
+    try:
+        buf = bytearray(b'\xaa' * len(wire))
+        mv = memoryview(buf)
+        ret = inst.encode(mv)
+        ex['into_view'] = bool(bytes(buf) == wire and ret is mv)
+    except Exception as e:     # noqa
+        ex['into_view'] = 'raised ' + _exc(e)
+    # the same instance, one integer / byte-string field changed to a value of another size, encoded, changed back
+    try:
+        flds = cls._encoded_fields if names is None else [getattr(cls, n) for n in names]
+        for i, (f, s, v) in enumerate(zip(flds, fs, vals)):
+            if s[0] == 'U' and s[2] is None and v is not None:
+                nv, npy = ('u', 0 if v[1] >= 256 else 2 ** 40), None
+            elif s[0] == 'Y' and not s[2] and v is not None:
+                nv, npy = ('y', bytes(v[1]) + b'x' * 300), None
+            else:
+                continue
+            old = inst.__dict__[f.name]
+            inst.__dict__[f.name] = nv[1]
+            try:
+                announced = inst.encoded_length()
+                w2 = bytes(inst.encode())
+            finally:
+                inst.__dict__[f.name] = old
+            want = b''.join(T.ref_encode(a, b) for a, b in zip(fs, list(vals[:i]) + [nv] + list(vals[i + 1:])))
+            ex['modify'] = bool(w2 == want and announced == len(want)) and bool(bytes(inst.encode()) == wire)
+            break
+    except Exception as e:     # noqa
+        ex['modify'] = 'raised ' + _exc(e)
+
+
 def _plain(x):
     if isinstance(x, dict):
         return {(bytes(k) if isinstance(k, memoryview) else k): _plain(v) for k, v in x.items()}
@@ -851,7 +957,9 @@ def run_impl(case):
         q, got = _live_question(cls)
         out['merge_q'], out['merge_live'] = [q], [got]
     try:
-        if names is None:
+        if names is None and case.get('spell'):
+            inst = _to_instance_sp(cls, fs, vals, case['spell'])
+        elif names is None:
             inst = T.to_instance(cls, fs, vals)
         else:
             inst = cls()
@@ -874,11 +982,15 @@ def run_impl(case):
             want = _want_dict(cls, fs, _normalise(fs, vals))
         except Exception:     # noqa
             want = None
-    out['extras'] = _extras(cls, fs, vals, inst, wire, names, want)
+    sp = case.get('spell') or {}
+    out['extras'] = _extras(cls, fs, vals, inst, wire, names, want,
+                            skip_eq=bool(sp.get('name')) and 'N' in out['schema_text'])
     mw = _mutate(wire, case['mut'], fs)
     out['mwire'] = mw.hex()
+    out['ic'] = 1 if sp.get('ic') else 0
     try:
-        back = cls.parse(mw)
+        arg = PK.buf_in_form(mw, sp.get('wire'))
+        back = cls.parse(arg, ignore_critical=True) if sp.get('ic') else cls.parse(arg)
         if names is None:
             out['parse'] = ['ok', T.values_text(T.from_instance(fs, back))]
         else:
@@ -895,6 +1007,10 @@ def run_impl(case):
         exp = ['ok', norm]
     elif k == 'ins_crit' and nt is not None and case['kind'] != 'shipped' and nt[1][2]:
         exp = ['ok', norm]          # this generated sub-model was declared with ignore_critical=True
+    elif k == 'ins_crit' and nt is None and sp.get('ic'):
+        exp = ['ok', norm]          # the caller asked parse() to ignore unknown critical elements (of this model)
+    elif sp.get('ic') and k in ('dup', 'swap'):
+        exp = None                  # (with ignore_critical a repeated / out-of-order critical element is skipped too)
     elif k == 'ins_crit':
         # (no sub-model field of a shipped model class may ignore critical elements: taken from the formats, not
         # from the flag found in the source)
@@ -912,6 +1028,12 @@ def run_impl(case):
             exp = ['err', 'DecodeError']
     out['expected_parse'] = exp
     out['nested_ok'] = _well_nested(fs, mw)
+    if exp is not None and exp[0] == 'ok' and out['parse'] == exp:
+        # the decoded model is equal to the encoded one: encoding IT gives the same bytes again
+        try:
+            out['reencode'] = bool(bytes(back.encode()) == wire)
+        except Exception as e:     # noqa
+            out['reencode'] = 'raised ' + _exc(e)
     return out
 
 
@@ -975,7 +1097,7 @@ def model_line(case, impl):
 
 
 def _lines(case, impl):
-    ic = '0'
+    ic = str(impl.get('ic', 0))
     l1 = f"C08 enc {impl['schema_text']} {impl['values_text']}"
     l2 = f"C08 parse {impl['schema_text']} {ic} {T.hx(bytes.fromhex(impl['mwire']))}" if 'mwire' in impl else None
     return l1, l2
@@ -1073,6 +1195,15 @@ def oracle(case, impl):
         return '__eq__ calls two models equal although a field differs'
     if ex.get('into_buffer', True) is not True:
         return f"encode(wire, offset) into a caller-supplied buffer: wrong bytes / wrote outside its range ({ex['into_buffer']})"
+    if ex.get('into_view', True) is not True:
+        return f"encode(wire) into a caller-supplied memoryview of exactly the announced size: wrong bytes ({ex['into_view']})"
+    if ex.get('two_pass', True) is not True:
+        return f"encoded_length(markers) followed by encode(markers=markers): size or bytes differ from a plain encode() ({ex['two_pass']})"
+    if ex.get('modify', True) is not True:
+        return ('the same model instance encoded again after one field was changed (and once more after it was changed back) '
+                f"is not the exact encoding of its current values ({ex['modify']})")
+    if impl.get('reencode', True) is not True:
+        return f"encoding the decoded model does not give the bytes it was decoded from ({impl['reencode']})"
     return None
 
 
@@ -1103,6 +1234,11 @@ def tags(case, impl):
          'mut:' + case['mut']['kind'] + ('-nested' if case['mut'].get('nest') else ''), 'enc:' + impl['enc'][0]]
     for k, v in (impl.get('extras') or {}).items():
         t.append(f'{k}:{v}')
+    for k, v in (case.get('spell') or {}).items():
+        if k != 'seed':
+            t.append(f'spell-{k}:{v}')
+    if 'reencode' in impl:
+        t.append(f"reencode:{impl['reencode']}")
     if 'parse' in impl:
         t.append('parse:' + (impl['parse'][0] if impl['parse'][0] == 'ok' else impl['parse'][1]))
     if impl['enc'][0] == 'ok':
